@@ -55,6 +55,7 @@ type Output struct {
 func main() {
 	repo := flag.String("repo", "/repo", "repository root")
 	harness := flag.String("harness", "/verif/harness", "harness directory")
+	gen := flag.String("gen", "/verif/out/gen", "generated harness directory")
 	pkgs := flag.String("pkgs", "./vm", "comma separated package patterns")
 	fnRe := flag.String("fn", "^ZZ_", "regexp of harness function names")
 	workers := flag.Int("workers", 16, "worker count")
@@ -68,7 +69,7 @@ func main() {
 	flag.Parse()
 
 	t0 := time.Now()
-	prog, err := engine.Load(engine.LoadConfig{Repo: *repo, HarnessDir: *harness, Patterns: strings.Split(*pkgs, ",")})
+	prog, err := engine.Load(engine.LoadConfig{Repo: *repo, HarnessDir: *harness, GenDir: *gen, Patterns: strings.Split(*pkgs, ",")})
 	output := &Output{Solver: *solver}
 	if err != nil {
 		output.Error = err.Error()
